@@ -453,6 +453,7 @@ class G:
         self.rng = rng
         self.family = family
         self.bounds = set()
+        self.over = False
 
     def i64(self, p=0.5):
         if self.rng.random() < p:
@@ -502,6 +503,11 @@ class G:
         if big and r < 0.22:
             self.bounds.add("count-%d" % big)
             return big
+        if big and big >= 40 and r < 0.235 and not self.over:
+            # once per case at most: an array longer than any pre-allocation cap a decoder might apply (1024 here)
+            self.over = True
+            self.bounds.add("count-over-1024")
+            return self.rng.choice([1024, 1025, 1100, 1500])
         return self.rng.choice([1, 1, 2, 2, 3, 4, 5])
 
     def array(self, fn, big=None):
